@@ -18,7 +18,7 @@ Blanks == <<" ", "\n", "\t", "\r\n", "  ">>
 (* (runs of asterisks of even and odd length before the closing solidus: a scanner that looks at pairs of characters  *)
 (* must not step over the pair that ends the comment)                                                              *)
 Bodies == <<"", " c ", "'", ";", "(", ")", "#9", "=", "*", "/", ",", "$", " #7=X('a;',(#1)); ", " it's ", "/* ", "''", "\\",
-            "**", "* x *", " x **", "*****", "*/ *">>
+            "**", "* x *", " x **", "*****", "* / *">>
 Comment(b) == "/*" \o b \o "*/"
 Comments == [i \in 1..Len(Bodies) |-> Comment(Bodies[i])]
 (* separator strings: single atoms and the two-atom combinations blank+comment, comment+blank, comment+comment *)
